@@ -57,6 +57,8 @@ type GateStep struct {
 type GateBehaviour struct {
 	ID    int        `json:"id"`
 	Steps []GateStep `json:"steps"`
+	// the searches whose work ends by itself run on positions WITHOUT legal moves (mate, stalemate) instead of with a depth limit
+	Terminal bool `json:"terminal"`
 }
 
 type GateDivergence struct {
@@ -84,6 +86,7 @@ type GateResult struct {
 	Early     []GateEarly     `json:"early"`
 	Stuck     []GateEarly     `json:"stuck"`
 	OptionLost []string       `json:"option_lost"`
+	ValidStartRejected []string `json:"valid_start_rejected"`
 	Log       []string        `json:"log"`
 	TickMs    int             `json:"tick_ms"`
 	WallMs    int64           `json:"wall_ms"`
@@ -207,6 +210,19 @@ func (c *gateCapture) SendResult(best Move, ponder Move) {
 	c.g.note("RESULT #%d %s", n, best.StringUci())
 }
 
+// positions without legal moves: mated, stalemated
+var gateTerminalFens = []string{
+	"rnb1kbnr/pppp1ppp/8/4p3/6Pq/5P2/PPPPP2P/RNBQKBNR w KQkq - 1 3",
+	"7k/5Q2/6K1/8/8/8/8/8 b - - 0 1",
+}
+
+func (r *gateRun) fen(i int) string {
+	if r.terminal && r.selfend[i] {
+		return gateTerminalFens[(i-1)%len(gateTerminalFens)]
+	}
+	return gateFens[(i-1)%len(gateFens)]
+}
+
 var gateFens = []string{
 	"r1bqkb1r/pppp1ppp/2n2n2/4p3/2B1P3/5N2/PPPP1PPP/RNBQK2R w KQkq - 4 4",
 	"r1bqk2r/pppp1ppp/2n2n2/2b1p3/2B1P3/3P1N2/PPP2PPP/RNBQK2R b KQkq - 0 5",
@@ -264,6 +280,7 @@ type gateRun struct {
 	known    map[int]bool
 	mode     map[int]string // model search id -> mode
 	selfend  map[int]bool
+	terminal bool
 	pending  string         // controller call announced but not launched: "start" | "wait" | ""
 	pendI    int
 	done     chan string    // return of the controller call in flight
@@ -345,6 +362,27 @@ func (r *gateRun) quiet(id int, d time.Duration) (string, bool) {
 }
 
 func (r *gateRun) launch(name string, f func()) {
+	if name == "StartSearch" {
+		// monitor: a start request issued when every earlier accepted search has handed over its result (the user interface
+		// has its bestmove: the next go is protocol-valid) must be accepted - the search may still be cleaning up, it is not
+		// "running" any more. Both numbers can only grow by steps this goroutine takes or has seen.
+		r.g.mu.Lock()
+		accB := r.g.accepted
+		r.g.mu.Unlock()
+		resB := int(atomic.LoadInt64(&r.g.results))
+		inner, nth := f, len(r.callModes)
+		f = func() {
+			inner()
+			r.g.mu.Lock()
+			accA := r.g.accepted
+			r.g.mu.Unlock()
+			if resB == accB && accA != accB+1 {
+				r.g.mu.Lock()
+				r.res.ValidStartRejected = append(r.res.ValidStartRejected, fmt.Sprintf("start request %d was issued after all %d earlier searches had delivered their results and was not accepted", nth, accB))
+				r.g.mu.Unlock()
+			}
+		}
+	}
 	r.done = make(chan string, 1)
 	r.inflight = true
 	r.inflightName = name
@@ -411,7 +449,7 @@ func (r *gateRun) goLine(i int) string {
 
 func (r *gateRun) callStart(i int) func() {
 	if r.uciW != nil {
-		pos, goLine := "position fen "+gateFens[(i-1)%len(gateFens)], r.goLine(i)
+		pos, goLine := "position fen "+r.fen(i), r.goLine(i)
 		return func() { r.uciSend(pos, goLine) }
 	}
 	p, sl := r.limits(i)
@@ -463,7 +501,7 @@ func (r *gateRun) call(kind string, out *bool) func() {
 }
 
 func (r *gateRun) limits(i int) (*position.Position, *search.Limits) {
-	p, _ := position.NewPositionFen(gateFens[(i-1)%len(gateFens)])
+	p, _ := position.NewPositionFen(r.fen(i))
 	sl := search.NewSearchLimits()
 	limit := 2*r.tick - 10*time.Millisecond // between one and two ticks, with room on both sides
 	switch r.mode[i] {
@@ -754,7 +792,7 @@ func runGateBehaviour(b *GateBehaviour, watchdog time.Duration, tickMs int, uciF
 	res := &GateResult{ID: b.ID, Steps: len(b.Steps), TickMs: tickMs}
 	r := &gateRun{g: g, s: s, res: res, watchdog: watchdog, tick: time.Duration(tickMs) * time.Millisecond,
 		queue: map[int][]string{}, rid: map[int]int{}, tid: map[int]int{}, known: map[int]bool{0: true},
-		mode: map[int]string{}, selfend: map[int]bool{}}
+		mode: map[int]string{}, selfend: map[int]bool{}, terminal: b.Terminal}
 	var uciDone chan bool
 	if uciFront {
 		// the handler as main() builds it, talking to pipes; results, readyok and info strings are read off its output
